@@ -544,6 +544,10 @@ func nativeReplay(r Run, replayPath string, p *sym.Program) (bool, string) {
 	default:
 		rep = strings.Contains(s, "REPLAY-PANIC") || strings.Contains(s, "panic:") || strings.Contains(s, "fatal error:") || strings.Contains(s, "DATA RACE")
 	}
+	if strings.Contains(s, "REPLAY-PANIC: open ") || strings.Contains(s, "[build failed]") || strings.Contains(s, "[setup failed]") {
+		// the replay itself could not run: never a confirmation
+		rep = false
+	}
 	return rep, s
 }
 
@@ -551,6 +555,9 @@ func replayMain(args []string) int {
 	if len(args) < 1 {
 		fmt.Fprintln(os.Stderr, "usage: gosym replay <path>")
 		return 2
+	}
+	if abs, err := filepath.Abs(args[0]); err == nil {
+		args[0] = abs
 	}
 	b, err := os.ReadFile(args[0])
 	if err != nil {
@@ -688,6 +695,11 @@ func writeEvidence(id, tier string, seed int, prop *Prop, outcomes []*runOutcome
 		},
 	}
 	b, _ := json.MarshalIndent(ev, "", " ")
-	os.MkdirAll(filepath.Join(verifDir, "evidence"), 0o755)
-	os.WriteFile(filepath.Join(verifDir, "evidence", id+".json"), b, 0o644)
+	evDir := filepath.Join(verifDir, "evidence")
+	if os.Getenv("VERIF_REPO") != "" {
+		// trying a scratch tree (seeded change): keep /verif/evidence for /repo
+		evDir = filepath.Join(verifDir, "replays", "evidence-scratch")
+	}
+	os.MkdirAll(evDir, 0o755)
+	os.WriteFile(filepath.Join(evDir, id+".json"), b, 0o644)
 }
